@@ -1,4 +1,4 @@
-(* C05 — Kernel matrices match their mathematical definitions (partial: positive semi-definiteness is NOT proved).
+(* C05 — Kernel matrices match their mathematical definitions (partial: positive semi-definiteness is proved for the product kernel with exponent 1 and certified per instance otherwise).
    Model: XV.Real.Kernels — the sequence of tensor operations of each CPU kernel, over the reals, for vectors of any dimension. *)
 From Coq Require Import Reals List Lra.
 Require Import XV.Real.Kernels.
@@ -57,10 +57,29 @@ Theorem C05_entries_in_unit_interval : forall t L q x z, 0 < laplace_l2 t L q x 
 Proof. exact laplace_l2_range. Qed.
 Print Assumptions C05_entries_in_unit_interval.
 
-(* the PSD clause of the property (Schoenberg: 0 < q <= p <= 2) is stated but NOT proved here; it is tested numerically by the harness *)
-Definition psd_statement : Prop :=
-  forall (k : list R -> list R -> R) (xs : list (list R)) (c : list R), length c = length xs ->
-  0 <= rsumR (map (fun ic => rsumR (map (fun jc => snd ic * snd jc * k (fst ic) (fst jc)) (combine xs c))) (combine xs c)).
+(* ---------- positive semi-definiteness ---------- *)
+Require Import XV.Real.PsdProduct XV.Real.PsdCert.
+(* (i) PROVED for all inputs: the product (L1-type) Laplace kernel with exponent 1 — exp(-||T(x-z)||_1 / L) — has a non-negative quadratic
+   form for ANY number of points, any dimension, any coefficients and any feature transform (explicit finite-dimensional feature maps:
+   a telescoping 1-D construction on the sorted coordinates, tensor products over the coordinates). *)
+Theorem C05_product_laplace_q1_is_psd : forall t L (xs : list (list R)) (cs : list R) (d : nat),
+  0 < L -> wf_tmat t d -> Forall (fun x => length x = d) xs -> 0 <= qf (closed_product t L 1) xs cs.
+Proof. exact product_laplace_psd_strong. Qed.
+Print Assumptions C05_product_laplace_q1_is_psd.
+(* the one-dimensional fact underneath: exp(-|a-b|) is an inner product of explicit feature vectors on any finite point set *)
+Theorem C05_laplace_1d_feature_map : forall pts a b, In a pts -> In b pts -> exp (- Rabs (a - b)) = vdotR (f1 pts a) (f1 pts b).
+Proof. exact laplace1_feature_dot. Qed.
+Print Assumptions C05_laplace_1d_feature_map.
+(* (ii) for the other exponents / norms (Schoenberg: 0 < q <= p <= 2) the general statement is NOT proved; instead every Gram matrix the
+   harness obtains from the code is certified inside Coq: an exact integer LDL^T certificate is re-checked by computation and this theorem
+   turns an accepted certificate into a bound on the quadratic form for EVERY real vector. *)
+Theorem C05_psd_certificate_is_sound : forall dim K tol D c, length K = dim -> Forall (fun r => length r = dim) K ->
+  psd_cert_okb dim (add_diag tol K) D c = true -> forall v : list R, length v = dim -> - IZR tol * PsdCert.sumsq v <= qform K v.
+Proof. exact psd_cert_shift_sound. Qed.
+Print Assumptions C05_psd_certificate_is_sound.
+Example C05_certificate_accepts_and_rejects :
+  psd_cert_okb 3 K3 D3 c3 = true /\ (forall D c, psd_cert_okb 2 Kbad D c = false).
+Proof. split; [exact K3_cert_ok|exact Kbad_no_cert]. Qed.
 
 (* without symmetry of M the light kernel's expansion differs from the quadratic form: why the hypothesis is needed *)
 Example C05_light_needs_symmetric_M :
